@@ -61,7 +61,8 @@ var propConfigs = map[string]*propConfig{
 	}},
 	"C08": {pkgs: []string{"./pkg/bmnumbers"}, extra: func(c *checkRun) { c.regLanObligations("bmnumbers") }, notes: []string{
 		"decided for clause (b), binary renderings: ExportBinaryNBits returns exactly the requested number of binary digits or an error; ExportVerilogBinary returns <bits>'b followed by binary digits, exactly <bits> of them unless the value needs more (then no leading zero); ExportBinary strips every leading zero; for byte strings of any length and any declared width",
-		"not decided for clause (b): the importers (regexp capture groups are opaque), hex/decimal export (math/big), print/parse round trips through ImportString",
+		"decided for clause (b), importers: binImportNoSize/WithSize, hexImportNoSize/WithSize and unsignedImportNoSize/WithSize store a byte string of exactly the stated width (8*len within one byte of bits; exactly bits for hex) and never index out of range, for arbitrary captured digit strings; this is how the sized-hex defect (one byte per declared bit) was found",
+		"not decided for clause (b): the values the importers store (regexp capture groups, strconv.ParseUint and hex.DecodeString are opaque), hex/decimal export, print/parse round trips through ImportString",
 		"float16/float32, fixed point, FloPoCo and linear-quantiser import/export go through strconv.ParseFloat and float scaling: floating point is outside this family; only the integer notations (unsigned, signed, bin, hex) are under functional contract",
 		"the regular languages are those of Go's regexp/syntax parse of the pattern strings found in the importMatchers methods; runes above U+2FFFF are clipped (SMT-LIB string alphabet)",
 	}},
